@@ -221,6 +221,12 @@ def rule_bce(ck, R):
             nn = any(c == ('cmp', '!=', blk, C(0)) for c in p.cond_terms())
             if not nn:
                 viol.append((key, 'block released without a non-NULL test'))
+        # what the caller finds in *mf is what it will hand to regp_process / regp_free: on a path that does not hand a
+        # block over, mf->frame has to say so (NULL) - set by THIS call, not left as the caller's object happened to be
+        if not handed and strip_cast(fr) != C(0):
+            viol.append((key, 'returns %s without a frame for the caller, but mf->frame is %s: a caller that reuses its RPMaybeFrame (the documented receive loop) '
+                              'finds the block of an EARLIER call there - it is processed and released a second time'
+                         % (fmt(p.ret)[:40], 'left as it was passed in' if strip_cast(fr) == ('f', MF, 'frame') else fmt(fr))))
     seen = set()
     for key, msg in viol:
         if key in seen:
